@@ -367,6 +367,7 @@ type Report struct {
 	Unsat         int               `json:"unsat"`
 	Sat           int               `json:"sat"`
 	CrossChecked  int               `json:"cross_checked_second_solver"`
+	Retried       int               `json:"undecided_queries_retried_on_another_solver"`
 	SolverSecs    float64           `json:"solver_time_s"`
 	TwinValidated int               `json:"twin_validated"`
 	TwinMismatch  []string          `json:"twin_mismatch"`
@@ -440,6 +441,7 @@ func Main(property string, gen func(tier string, seed int64) []Scenario) {
 			rep.Unsat += w.Unsat
 			rep.Sat += w.Sat
 			rep.CrossChecked += w.CrossChecked
+			rep.Retried += w.Retried
 			rep.SolverSecs += w.SolverTime.Seconds()
 			rep.PCCount += len(w.PC)
 			for q := range w.Distinct {
